@@ -55,6 +55,20 @@ pub fn drain<const N: usize, P: Pad>(ctx: &mut Ctx) {
                                 }) {
                                     continue;
                                 }
+                                if forget {
+                                    // control: the same state with the drain dropped normally and the
+                                    // same follow-ups, so that deviations which do not depend on the
+                                    // leak are known as such (they belong to other properties)
+                                    ledger_reset();
+                                    let (mut hc, mut mc) = build::<N, P>(route, start, len, Some(0x5A), &mut vc);
+                                    let mut envc = Env::<N, P>::new(vc);
+                                    let opc = Op::Drain(form, script.clone(), End::Drop);
+                                    step(&mut hc, &mut mc, &opc, &mut envc, ctx, &MonCfg::LIGHT, None, None);
+                                    for f in FOLLOW.iter().skip(if lean { 4 } else { 0 }) {
+                                        step(&mut hc, &mut mc, f, &mut envc, ctx, &MonCfg::LIGHT, None, None);
+                                    }
+                                    teardown(hc, ctx, "drain", None, false);
+                                }
                                 ledger_reset();
                                 let (mut h, mut model) = build::<N, P>(route, start, len, Some(0x5A), &mut vc);
                                 let obs = observe(h.buf_ref());
